@@ -1,7 +1,7 @@
 (* Property C07 - spectrum files round-trip through text and npy; the tool reads what it writes.
    Values are 64-bit patterns; the std float formatting/parsing functions are modelled by executable stand-ins
    (print_fixed, parse_f64) that are compared with Rust on every run. *)
-From Sfs Require Import Index Npy Text NpyP TextP NpySpellP.
+From Sfs Require Import Index Npy Text NpyP TextP NpySpellP TextLayoutP.
 Close Scope string_scope. Open Scope N_scope.
 
 (* npy: writing and reading back returns the same shape and bit-identical values (any 64-bit pattern: NaN payloads, infinities) *)
@@ -88,4 +88,19 @@ Theorem C07_printed_values_are_tokens : forall w p,
   print_fixed w p <> [] /\ no_ws (print_fixed w p) /\ Forall (fun c => c < 128) (print_fixed w p).
 Proof. exact (@print_fixed_nonempty_no_ws). Qed.
 Print Assumptions C07_printed_values_are_tokens.
+
+(* text: the value tokens are found whatever non-empty runs of ASCII whitespace (spaces, tabs, line breaks, CR LF) separate, precede or follow them *)
+Theorem C07_text_tokens_any_layout : forall (toks seps : list bytes) (lead tail : bytes),
+  Forall word toks -> Forall ws_run seps -> all_ws lead -> all_ws tail ->
+  split_ascii_whitespace (lead ++ layout toks seps tail) = toks.
+Proof. exact (@split_ws_layout). Qed.
+Print Assumptions C07_text_tokens_any_layout.
+
+(* ... so the reader returns for every layout what it returns for the one-line layout the writer produces *)
+Theorem C07_text_reader_layout_free : forall (line : bytes) (toks seps : list bytes) (lead tail : bytes),
+  Forall (fun c => (c =? 10) = false) line -> Forall (fun c => c < 128) line ->
+  Forall word toks -> Forall (Forall (fun c => c < 128)) toks -> Forall ws_run seps -> all_ws lead -> all_ws tail ->
+  read_text (line ++ 10 :: lead ++ layout toks seps tail) = read_text (line ++ 10 :: join [32] toks ++ [10]).
+Proof. exact (@read_text_layout_free). Qed.
+Print Assumptions C07_text_reader_layout_free.
 
